@@ -110,6 +110,22 @@ func c20Typestate(ctx *Ctx, r *Report) {
 							}
 							return true
 						})
+						// a decoder that only ever fills a yaml.Node reads the shape of the document: no configuration
+						// struct is decoded by it, so there is no key to be strict about
+						onlyNodes := len(decodes) > 0 && !escapes
+						for _, dcall := range decodes {
+							if len(dcall.Args) != 1 {
+								onlyNodes = false
+								continue
+							}
+							if n := namedOf(info.TypeOf(dcall.Args[0])); n == nil || n.Obj().Name() != "Node" || n.Obj().Pkg() == nil || n.Obj().Pkg().Path() != yamlPkgPath {
+								onlyNodes = false
+							}
+						}
+						if onlyNodes {
+							r.OK("cfgschema/strict", name+" yaml.NewDecoder (shape)", call.Pos(), "this decoder only decodes into yaml.Node values: it reads the shape of the input, no configuration struct is filled by it")
+							return true
+						}
 						ok2 := known != nil && !escapes && len(decodes) > 0
 						for _, dcall := range decodes {
 							if known == nil || dcall.Pos() < known.End() {
@@ -125,7 +141,125 @@ func c20Typestate(ctx *Ctx, r *Report) {
 			}
 		}
 	}
-	r.Floor("yaml decoders", 3)
+	r.Floor("yaml decoders", 2)
+	c20StrictHelper(ctx, r)
+}
+
+// c20StrictHelper: the three loaders go through yaml.DecodeStrict, which closes what KnownFields(true) cannot see —
+// yaml.v3 skips a null key, a null entry of a list of structs and every document after the first before any check.
+func c20StrictHelper(ctx *Ctx, r *Report) {
+	helper := ctx.LookupFunc("internal/yaml", "DecodeStrict")
+	hfd, hp := ctx.DeclOf(helper)
+	if hfd == nil || hfd.Body == nil {
+		r.Bad("cfgschema/strict-helper", "internal/yaml.DecodeStrict", token.NoPos, "the loaders have no shared strict decoding function: null keys, null list entries and additional documents are skipped by yaml.v3 before KnownFields can object")
+		return
+	}
+	hinfo := hp.TypesInfo
+	// (a) a second Decode whose result is compared with io.EOF, and a call to the shape check
+	eof, shape := false, (*types.Func)(nil)
+	ast.Inspect(hfd.Body, func(n ast.Node) bool {
+		c, ok := n.(*ast.CallExpr)
+		if !ok {
+			return true
+		}
+		fn := callee(hinfo, c)
+		if fn == nil {
+			return true
+		}
+		if fn.Name() == "Is" && fn.Pkg() != nil && fn.Pkg().Path() == "errors" && len(c.Args) == 2 && exprString(c.Args[1]) == "io.EOF" {
+			eof = true
+		}
+		if fn.Pkg() == hp.Types && fn != helper {
+			if sig, _ := fn.Type().(*types.Signature); sig != nil && sig.Params().Len() == 1 && sig.Results().Len() == 1 {
+				shape = fn
+			}
+		}
+		return true
+	})
+	r.Check(eof, "cfgschema/strict-helper", "DecodeStrict rejects additional documents", hfd.Pos(), "the input is read until io.EOF after the first document",
+		"DecodeStrict does not check that the input ends after the first document: everything after a `---` separator is never decoded, unknown keys and empty rules included")
+	if shape == nil {
+		r.Bad("cfgschema/strict-helper", "DecodeStrict checks the shape of the document", hfd.Pos(), "no shape check is called: null keys and null list entries are skipped by the decoder")
+	} else {
+		sfd, _ := ctx.DeclOf(shape)
+		want := map[string]string{"DocumentNode": "a null document", "MappingNode": "null or non-scalar keys", "SequenceNode": "null list entries"}
+		got := map[string]bool{}
+		recurses := false
+		errT := types.Universe.Lookup("error").Type()
+		if sfd != nil && sfd.Body != nil {
+			ast.Inspect(sfd.Body, func(n ast.Node) bool {
+				switch x := n.(type) {
+				case *ast.CaseClause:
+					for _, e := range x.List {
+						for k := range want {
+							if strings.HasSuffix(exprString(e), k) {
+								rejects := false
+								ast.Inspect(x, func(m ast.Node) bool {
+									if is, ok := m.(*ast.IfStmt); ok && blockReturnsError(hinfo, is.Body, errT) {
+										rejects = true
+									}
+									return true
+								})
+								if rejects {
+									got[k] = true
+								}
+							}
+						}
+					}
+				case *ast.CallExpr:
+					if callee(hinfo, x) == shape {
+						recurses = true
+					}
+				}
+				return true
+			})
+		}
+		for _, k := range []string{"DocumentNode", "MappingNode", "SequenceNode"} {
+			r.Check(got[k], "cfgschema/strict-helper", shape.Name()+" rejects "+want[k], shape.Pos(), "the case for yaml."+k+" returns an error",
+				"the shape check has no rejecting case for yaml."+k+": "+want[k]+" are skipped by yaml.v3 without an error (a `~: x` pair, a `- ~` rule, a `~` file)")
+		}
+		r.Check(recurses, "cfgschema/strict-helper", shape.Name()+" descends into every node", shape.Pos(), "the check calls itself on the content of the node", "the shape check does not recurse: only the top level of the document is checked")
+	}
+	// (b) who decodes configuration: every yaml decoder of cog is built inside the helper, and the loaders pass it a
+	// pointer to a struct (a pointer to a pointer is reset to nil by a null document)
+	calls := 0
+	ctx.AllFuncDecls(func(p *packages.Package, fd *ast.FuncDecl, obj *types.Func) {
+		if fd.Body == nil {
+			return
+		}
+		info := p.TypesInfo
+		ast.Inspect(fd.Body, func(n ast.Node) bool {
+			c, ok := n.(*ast.CallExpr)
+			if !ok {
+				return true
+			}
+			fn := callee(info, c)
+			if fn == nil {
+				return true
+			}
+			if funcIs(fn, yamlPkgPath, "NewDecoder") && obj != helper {
+				r.Bad("cfgschema/strict-helper", ctx.FuncName(obj)+" builds its own yaml decoder", c.Pos(), "a configuration loader decodes with its own yaml.Decoder instead of DecodeStrict: KnownFields(true) alone lets null keys, null list entries and additional documents through")
+			}
+			if fn == helper && len(c.Args) == 2 {
+				calls++
+				t := hinfo.TypeOf(c.Args[1])
+				if t == nil {
+					t = info.TypeOf(c.Args[1])
+				}
+				single := false
+				if pt, ok := types.Unalias(t).(*types.Pointer); ok {
+					if _, again := types.Unalias(pt.Elem()).(*types.Pointer); !again {
+						single = true
+					}
+				}
+				r.Check(single, "cfgschema/strict-helper", ctx.FuncName(obj)+" decodes into a pointer to a struct", c.Pos(), "the target is a pointer to the configuration struct",
+					"the target given to DecodeStrict is not a plain pointer to a struct ("+exprString(c.Args[1])+"): through a pointer to a pointer a null document resets the pointer to nil and the loader dereferences it")
+			}
+			return true
+		})
+	})
+	r.Count("loaders decoding through DecodeStrict", calls)
+	r.Floor("loaders decoding through DecodeStrict", 3)
 }
 
 // ---------------------------------------------------------------------------
